@@ -17,7 +17,7 @@ RULE = ("every clean (schema, document) pair x every applicable single invalidat
         "E6 type condition that can never apply (empty intersection of possible types, or a non-composite type), E7 `__typename` "
         "dropped from an abstract selection (and not reachable through same-type spreads), E8 second subscription root field, "
         "E9 anonymous operation, E10 operation kind without root type, E11 the query file of one schema given in the same process to a "
-        "schema that has none of its fields (accepted / refused / accepted again, and the other order). Each edit is validated by the model first. The unedited "
+        "schema that has none of its fields (a one-field schema, or the document's own schema with every field renamed: same shape, other names) (accepted / refused / accepted again, and the other order). Each edit is validated by the model first. The unedited "
         "document must be accepted (control). Non-trivial = edit at depth >= 2, inside a fragment or inside an inline fragment; "
         "distinct by edited document text")
 
@@ -52,7 +52,7 @@ def main(run):
         doc, feats = gen_document(schema, rng)
         rid = "p%d" % i
         reqs.append({"id": rid, "schema_path": sp, "query_text": render_document(doc), "options": {"mode": "cli"}, "want": []})
-        meta[rid] = {"rule": "control", "label": "unedited", "schema_path": sp, "schema_text": stext if fmt == "sdl" else None, "schema_format": fmt}
+        meta[rid] = {"rule": "control", "label": "unedited", "schema_path": sp, "schema_text": stext if fmt == "sdl" else None, "schema_format": fmt, "schema_obj": schema}
         for ei, (rule, label, text, m) in enumerate(edits(schema, doc, rng, max_per_rule=run.size(40, 60))):
             eid = "p%d.e%d" % (i, ei)
             reqs.append({"id": eid, "schema_path": sp, "query_text": text, "options": {"mode": "cli"}, "want": []})
@@ -63,7 +63,7 @@ def main(run):
         m = meta[req["id"]]
         run.evaluated()
         case = {"id": req["id"], "corpus": "clean", "rule": m["rule"], "label": m["label"], "doc_text": req["query_text"],
-                "schema_text": m.get("schema_text") or open(m["schema_path"]).read(), "schema_ext": os.path.splitext(m["schema_path"])[1][1:], "meta": {k: v for k, v in m.items() if k not in ("schema_text",)}}
+                "schema_text": m.get("schema_text") or open(m["schema_path"]).read(), "schema_ext": os.path.splitext(m["schema_path"])[1][1:], "meta": {k: v for k, v in m.items() if k not in ("schema_text", "schema_obj")}}
         if m["rule"] == "control":
             if resp["outcome"] == "ok":
                 run.count("controls-accepted")
@@ -103,9 +103,23 @@ def main(run):
         qp = os.path.join(work, "e11_%d.graphql" % n)
         open(qp, "w").write(text)
         own = meta[rid]["schema_path"]
-        order = [own, zsp, own] if n % 2 == 0 else [zsp, own, zsp]
+        if n % 3 != 2:
+            # the other schema is the document's own with every field renamed: same types, same shape, same positions -
+            # only the names the document uses are gone
+            import copy
+            from ..model import Schema, render_sdl
+            z = Schema(copy.deepcopy(meta[rid]["schema_obj"].d))
+            for tn in z.order:
+                for f in z.types[tn].get("fields", []):
+                    if isinstance(f, dict):
+                        f["name"] = f["name"] + "Zz"
+            zsp_n = os.path.join(work, "e11_%d_renamed.graphql" % n)
+            open(zsp_n, "w").write(render_sdl(z))
+        else:
+            zsp_n = zsp
+        order = [own, zsp_n, own] if n % 2 == 0 else [zsp_n, own, zsp_n]
         for k, spath in enumerate(order):
-            seq.append(({"id": "e11_%d_%d" % (n, k), "schema_path": spath, "query_path": qp, "options": {"mode": "cli"}, "want": []}, spath == zsp, text, own))
+            seq.append(({"id": "e11_%d_%d" % (n, k), "schema_path": spath, "query_path": qp, "options": {"mode": "cli"}, "want": []}, spath != own, text, own))
     for (req, must_fail, text, own), resp in zip(seq, run_gendrv([x[0] for x in seq])):
         run.evaluated()
         case = {"id": req["id"], "corpus": "clean", "rule": "E11", "label": "query file of another schema, same process", "doc_text": text,
